@@ -1,10 +1,11 @@
 (* Run_C26.v — correspondence: evaluate Model_Bloom on the log sets the harness
    fed to txresult.LogsBloom (AddLog / Merge / Contain / CompressedBytes) and
    report the indices of cases where an observation differs.
-   CompressedBytes is compared with the LZW model of C25.
+   The compressed form itself is C25's business (Run_C25); here only the bloom
+   that comes back from CompressedBytes -> NewLogsBloomFromCompressed is compared.
    SHA3-256 is not computed in Coq: every case carries the (preimage, digest)
    pairs the model needs; a missing preimage makes the case fail. *)
-From Goloop Require Import lib.Bytes Model_Bloom Model_Lzw.
+From Goloop Require Import lib.Bytes Model_Bloom.
 Open Scope N_scope.
 
 (* how the harness merged: a leaf is one bloom that accumulated the listed logs
@@ -21,7 +22,8 @@ Inductive case :=
 | CBloom (tbl : list (bytes * bytes))
          (logs : list (bytes * list (option bytes)))
          (sh : shape)
-         (final_log_bytes final_bytes compressed rt_log_bytes : bytes)
+         (final_log_bytes final_bytes : bytes)
+         (rt_log_bytes : option bytes)    (* None: observed equal to final_log_bytes *)
          (queries : list (list query * bool * bool)).
 
 Fixpoint tbl_find (tbl : list (bytes * bytes)) (pre : bytes) : option bytes :=
@@ -61,7 +63,7 @@ Fixpoint eval_shape (H : bytes -> N) (ls : list log) (s : shape) : option bloom 
 
 Definition check (c : case) : bool :=
   match c with
-  | CBloom tbl logs sh flb fb comp rlb queries =>
+  | CBloom tbl logs sh flb fb rlb queries =>
       let ls := map mk_log logs in
       let H := tbl_H tbl in
       forallb (fun l => forallb (tbl_has tbl) (items_of l)) ls &&
@@ -71,9 +73,7 @@ Definition check (c : case) : bool :=
       | Some b =>
           bytes_eqb (bloom_log_bytes b) flb &&
           bytes_eqb (bloom_bytes b) fb &&
-          bytes_eqb (compressed_bytes Model_Lzw.compress b) comp &&
-          match of_compressed Model_Lzw.decompress comp with Some b' => b' =? b | None => false end &&
-          bytes_eqb (bloom_log_bytes b) rlb &&
+          bytes_eqb (bloom_log_bytes b) (match rlb with Some x => x | None => flb end) &&
           forallb (fun q =>
                      let m := query_bloom H (map query_item (fst (fst q))) in
                      Bool.eqb (contain b m) (snd (fst q)) && Bool.eqb (contain b m) (snd q))
